@@ -838,3 +838,39 @@ def serves_resource_call(ctx, cls_q: str, getter: str):
     ok = bool(vals) and all(isinstance(v, ast.Call) and dotted(v.func) == "%s.%s" % (rp, getter) and not v.args and not v.keywords
                             for v, _n in vals)
     return fi, ok
+
+
+def string_leaves(du, n, e, _depth: int = 0):
+    """Origins of the pieces a string-valued expression is put together from: local names are followed, and so are the
+    arguments of calls, f-strings, `+` / `%` - whatever function joins, quotes or pads them.  Leaves are parameters,
+    attribute reads, and the calls whose result is destructured (tuple index path kept)."""
+    from ..dataflow import origins
+    out = []
+    if e is None or _depth > 8:
+        return out
+    for o in origins(du, n, unwrap_await(e)):
+        leaf = unwrap_await(o.leaf) if o.leaf is not None else None
+        at = o.node or n
+        if o.kind != "expr" or leaf is None or o.path:
+            out.append(o)
+        elif isinstance(leaf, ast.Call):
+            parts = list(leaf.args) + [k.value for k in leaf.keywords]
+            if isinstance(leaf.func, ast.Attribute) and not isinstance(leaf.func.value, ast.Name):
+                parts.append(leaf.func.value)      # "..".join(x) / x.rstrip() on a computed receiver
+            elif isinstance(leaf.func, ast.Attribute) and leaf.func.attr in ("format", "join", "rstrip", "lstrip", "strip", "removeprefix", "removesuffix", "replace"):
+                parts.append(leaf.func.value)
+            sub = []
+            for a in parts:
+                sub.extend(string_leaves(du, at, a, _depth + 1))
+            out.extend(sub if parts else [o])
+        elif isinstance(leaf, ast.BinOp):
+            out.extend(string_leaves(du, at, leaf.left, _depth + 1) + string_leaves(du, at, leaf.right, _depth + 1))
+        elif isinstance(leaf, ast.JoinedStr):
+            for v in leaf.values:
+                if isinstance(v, ast.FormattedValue):
+                    out.extend(string_leaves(du, at, v.value, _depth + 1))
+        elif isinstance(leaf, ast.Constant):
+            pass
+        else:
+            out.append(o)
+    return out
